@@ -113,7 +113,23 @@ func decodedOrder(t *Term, buf string) (order string, n int) {
 			k = c
 			x = stripConvs(x.Args[0])
 		}
+		if c, isC := x.Int64(); isC && c == 0 {
+			return // the accumulator's initial value: v := T(0); v |= ...
+		}
 		s := x.String()
+		// an element of a view of the buffer with constant bounds is an element of the buffer: b[lo:hi][k] = b[lo+k]
+		base := int64(0)
+		if x.Op == "index" && len(x.Args) == 2 && x.Args[0].Op == "slice" && x.Args[0].Args[0].String() == buf {
+			if x.Args[0].Args[1] != nil {
+				lo, isC := x.Args[0].Args[1].Int64()
+				if !isC {
+					ok = false
+					return
+				}
+				base = lo
+			}
+			s = buf + "[" + x.Args[1].String() + "]"
+		}
 		if !strings.HasPrefix(s, buf+"[") || !strings.HasSuffix(s, "]") {
 			ok = false
 			return
@@ -126,6 +142,7 @@ func decodedOrder(t *Term, buf string) (order string, n int) {
 			}
 			idx = idx*10 + int64(ch-'0')
 		}
+		idx += base
 		pos = append(pos, idx)
 		sh = append(sh, k)
 	}
